@@ -106,3 +106,13 @@ func verifConcretize(x int, lo, hi int) int {
 }
 
 func verifDeepEqual(a, b any) bool { return reflect.DeepEqual(a, b) }
+
+func verifHostFile(path string) string {
+	b, err := os.ReadFile(path)
+	if err != nil {
+		panic(err)
+	}
+	return string(b)
+}
+
+func verifEnv(name string) string { return os.Getenv(name) }
